@@ -12,6 +12,21 @@ stub drivers, vf.engines.dm). Oracle = reference substituter written from the do
 has bound the placeholders + the values in textual order (format/pyformat: DM driver-interpolation
 model); on the real SQLite engine additionally the echoed rows.
 
+Expression-grammar part (the extent of a $-expression): every expression wrapper(wrapper(..atom..)) + trailer of
+_c30_lib.G_WRAPS (call, call with a bracket character in a string argument before / after the nested argument,
+subscript, parenthesised group, tuple-and-subscript, call through an attribute chain) nested to depth 1..2 (thorough:
+1..3) over G_ATOMS (name, number, strings holding ')' / ']'), x trailer {none, ';', attribute chain} - so 2-fold / 3-fold
+nesting of the same and of different bracket kinds - x embedding {alone, followed by another item (plain
+concatenation: by '$$'), inside SQL parentheses, after another parameter} x both scopes, through adapt_sql (5 styles,
+select list; plain concatenation for qmark / thorough: all) and, followed by another item, through db.select (real
+SQLite), db.execute (PostgreSQL), select_by_sql (SQLite), raw_sql() in genif (SQLite) and where (PostgreSQL); thorough:
+all embeddings through select/get/exists/execute on SQLite, PostgreSQL, Oracle, select without the keyword,
+select_by_sql/get_by_sql on SQLite, MySQL, all 6 raw_sql() forms on SQLite, genif on PostgreSQL, MySQL, numeric.
+Oracle as in the sweep (reference substituter: text + values = eval() of the expression; rows echoed on real SQLite);
+the expression is known by construction, and the run is HARNESS-BROKEN unless the reference scanner cuts out exactly
+the constructed source text. Failing expressions shrink by dropping a wrapper / the trailer, or replacing a wrapper by
+the plain call / subscript.
+
 History part: all ORDERED PAIRS of (entry point, style, statement) items; the result of the second
 must equal its cold result. A zygote process forked before anything was adapted provides pristine
 processes: one pristine fork per core item (cold reference), two long histories (all items forward /
@@ -57,7 +72,7 @@ STYLES = ('qmark', 'format', 'numeric', 'named', 'pyformat')
 # ---- the caller's scope: module globals (f, o, and an x that must be shadowed) ------------------------
 _G0, _L0 = lib.make_scope(False)
 _G1, _L1 = lib.make_scope(True)
-x = _G0['x']; f = _G0['f']; o = _G0['o']
+x = _G0['x']; f = _G0['f']; o = _G0['o']; g2 = _G0['g2']; t_ = _G0['t_']
 SCOPES = {0: (_G0, _L0), 1: (_G1, _L1)}
 
 class NotApplicable(Exception): pass
@@ -642,7 +657,67 @@ def pair_worker(job):
                               % (i1[0], lib.text_of(i1[1], i1[2]), i2[0], lib.text_of(i2[1], i2[2]), r2[:160], COLD[b][:160]))
     return sub.dump()
 
-_WORKERS = dict(sweep='sweep_worker', pairs='pair_worker', tpairs='typed_pair_worker', ttriples='typed_triple_worker')
+# ---- $-expression grammar part -------------------------------------------------------------------------
+def grammar_plan(quick):
+    """-> [(channel, layout, maxdepth, embeddings)]; embeddings: 'all' = {alone, followed by another item, inside SQL
+    parentheses, after another parameter}, 'one' = followed by another item"""
+    plan = [('adapt:' + st, 'list', 2 if quick else 3, 'all') for st in STYLES]
+    plan += [('adapt:' + st, 'raw', 2 if quick else 3, 'all') for st in (('qmark',) if quick else STYLES)]
+    if quick:
+        dbs = [('db.select:sqlite', 'list'), ('db.execute:pg', 'list'), ('E.select_by_sql:sqlite', 'where'),
+               ('rawq.genif:sqlite', 'frag'), ('rawq.where:pg', 'frag')]
+        return plan + [(ch, lay, 2, 'one') for ch, lay in dbs]
+    dbs = [('db.%s:%s' % (m, d), 'list') for m in DB_METHODS for d in ('sqlite', 'pg', 'oracle')]
+    dbs += [('db.select:%s' % d, 'nolead') for d in ('sqlite', 'mysql')]
+    dbs += [('E.%s:%s' % (m, d), 'where') for m in E_METHODS for d in ('sqlite', 'mysql')]
+    dbs += [('rawq.%s:sqlite' % fm, 'frag') for fm in RAWQ_FORMS] + [('rawq.genif:%s' % d, 'frag') for d in ('pg', 'mysql', 'numeric')]
+    return plan + [(ch, lay, 2, 'all') for ch, lay in dbs]
+
+def grammar_embeddings(name, which, layout):
+    if which == 'one': return [(name, 'a')]
+    # plain concatenation: a letter would continue an attribute chain, so a literal dollar follows instead
+    return [(name,), (name, '$$' if layout == 'raw' else 'a'), ('(' + name + ')',), ('$x', name)]
+
+def grammar_worker(job):
+    ch, layout, maxdepth, which, part, nparts = job
+    sub = core.Sub()
+    distinct = 0
+    grp = ch.partition(':')[0].split('.')[0]
+    for idx, name in enumerate(lib.grammar_names(maxdepth)):
+        if idx % nparts != part: continue
+        meta = lib.GRAMMAR[name]
+        for names in grammar_embeddings(name, which, layout):
+            text = lib.text_of(names, layout)
+            # the expression is known by construction: the reference scanner must cut out exactly it
+            reftext = ('select ' + text) if layout == 'nolead' else text
+            try: exprs = [s for k, s in lib.ref_parse(reftext) if k == 'e']
+            except Exception as e: exprs = [type(e).__name__]
+            if meta['src'] not in exprs: sub.count('grammar_reference_scanner_disagrees_with_construction')
+            for mode in (0, 1):
+                reset_known_caches()
+                verdict, detail = judge(ch, list(names), layout, mode)
+                sub.count('evaluations'); sub.count('grammar_evaluations')
+                sub.count('verdict:' + ('notjudged' if verdict.startswith('notjudged') else verdict))
+                if verdict.startswith('notjudged'): sub.count('grammar_' + verdict); continue
+                sub.count('judged:' + grp); sub.count('grammar_judged:' + grp)
+                distinct += 1
+                if verdict == 'ok+echo': sub.count('echo_compared')
+                if verdict in ('ok', 'ok+echo'):
+                    sub.count('grammar_bound_faithfully:same_kind_nesting=%d' % meta['same'])
+                    if meta['trailer']: sub.count('grammar_bound_faithfully:trailer=%s' % meta['trailer'])
+                if verdict in VIOLATION_KINDS:
+                    sig, mn = signature(ch, names, layout, mode, verdict)
+                    case = dict(part='sweep', grammar=True, channel=ch, names=list(names), layout=layout, mode=mode,
+                                minimal=mn, kind=verdict, detail=detail)
+                    sub.violation(sig, case, '%s via %s (%s scope): %r -> %s; minimal skeleton: %s'
+                                  % (verdict, ch, 'explicit' if mode else 'frame', detail['text'],
+                                     json.dumps(detail.get('final', detail['observed']), default=repr)[:200], ' '.join(mn)))
+                elif len(sub.samples) < 1 and meta['same'] >= 2 and verdict == 'ok+echo' and idx % 11 == 5:
+                    sub.sample(dict(channel=ch, sql=detail['text'], driver=detail['final'], rows=detail.get('expected_rows')))
+    sub.counters['distinct_nontrivial'] = distinct
+    return sub.dump()
+
+_WORKERS = dict(grammar='grammar_worker', sweep='sweep_worker', pairs='pair_worker', tpairs='typed_pair_worker', ttriples='typed_triple_worker')
 def any_worker(job):
     import time as _time
     t0 = _time.process_time()
@@ -978,7 +1053,12 @@ def run(ctx):
             for p in range(nparts): jobs.append((ch, layout, ml, p, nparts))
         # ---- all ordered pairs (same pool of workers)
         firsts = ctx.shuffled(range(n))
-        jobs = [('sweep', j) for j in jobs] + [('pairs', c) for c in (firsts[i::64] for i in range(64)) if c]
+        gjobs = []
+        for ch, layout, md, which in grammar_plan(ctx.quick):
+            work = len(lib.grammar_names(md)) * (1 if which == 'one' else 4) * (1 if ch.startswith('adapt') else 8)
+            nparts = max(1, min(32, work // 3000))
+            gjobs += [('grammar', (ch, layout, md, which, p, nparts)) for p in range(nparts)]
+        jobs = [('sweep', j) for j in jobs] + gjobs + [('pairs', c) for c in (firsts[i::64] for i in range(64)) if c]
         # ---- type histories: ordered pairs; thorough: all ordered triples within one call site
         tfirsts = ctx.shuffled(range(tn))
         jobs += [('tpairs', c) for c in (tfirsts[i::192] for i in range(192)) if c]
@@ -1022,6 +1102,15 @@ def run(ctx):
     ctx.guard('raw_sql() fragment evaluations judged', c.get('judged:rawq', 0), 2000)
     ctx.guard('cases where the substitution was compared and agreed', c.get('verdict:ok', 0) + c.get('verdict:ok+echo', 0), 5000)
     ctx.guard('rows echoed by the real SQLite engine compared', c.get('echo_compared', 0), 500)
+    if c.get('grammar_reference_scanner_disagrees_with_construction', 0):
+        raise core.HarnessError('the reference scanner does not cut out the constructed $-expression in %d statements'
+                                % c['grammar_reference_scanner_disagrees_with_construction'])
+    ctx.guard('grammar part: $-expressions bound faithfully with 2-fold nesting of one bracket kind',
+              c.get('grammar_bound_faithfully:same_kind_nesting=2', 0), 5000)
+    if not ctx.quick: ctx.guard('grammar part: ... with 3-fold nesting of one bracket kind',
+                                c.get('grammar_bound_faithfully:same_kind_nesting=3', 0), 5000)
+    ctx.guard('grammar part: judged through Database methods / select_by_sql / raw_sql()',
+              min(c.get('grammar_judged:' + k, 0) for k in ('db', 'E', 'rawq')), 500)
     ctx.guard('ordered pairs run', c.get('pairs', 0), 10000)
     ctx.guard('cold references taken from pristine forks', c.get('cold_reference_forks', 0), 20)
     ctx.guard('type-history ordered pairs run', c.get('type_pairs', 0), 10000)
@@ -1038,6 +1127,8 @@ def run(ctx):
                                    entry_points=sorted(set(it[0].partition(':')[0][2:] for it in TITEMS)),
                                    fragments=sorted(set(it[1][0] for it in TITEMS)))
     ctx.cov['fragment_alphabet'] = lib.NAMES
+    ctx.cov['expression_grammar'] = dict(atoms=list(lib.G_ATOMS), wrappers=list(lib.G_WRAPS), trailers=list(lib.G_TRAILERS),
+                                         expressions=len(lib.grammar_names(3)), plan=[list(p) for p in grammar_plan(ctx.quick)])
     ctx.cov['max_fragments'] = dict(adapt_sql=amax, select_get_exists_execute_by_sql=emax, raw_sql_in_queries=rmax)
     return dict(evaluations=c.get('evaluations', 0) + c.get('pairs', 0) + c.get('long_history_steps', 0) + c.get('type_pairs', 0) + c.get('type_triples', 0),
                 distinct_nontrivial=distinct + c.get('pairs_distinct_items', 0) + c.get('type_pairs_distinct_items', 0) + c.get('type_triples', 0),
